@@ -23,8 +23,18 @@ func findTestInsert(c *Ctx) []testInsert {
 	var out []testInsert
 	for _, f := range c.ModFns() {
 		sig := f.Signature
-		if sig.Recv() == nil || sig.Results().Len() != 1 {
+		// a method, or the plain function a method was turned into (the object is the first parameter)
+		if len(f.Params) == 0 || sig.Results().Len() != 1 {
 			continue
+		}
+		if sig.Recv() == nil {
+			pt, ok := types.Unalias(f.Params[0].Type()).Underlying().(*types.Pointer)
+			if !ok {
+				continue
+			}
+			if _, isStruct := types.Unalias(pt.Elem()).Underlying().(*types.Struct); !isStruct {
+				continue
+			}
 		}
 		if b, ok := sig.Results().At(0).Type().Underlying().(*types.Basic); !ok || b.Kind() != types.Bool {
 			continue
@@ -148,7 +158,7 @@ var ruleVisited = &Rule{
 					// is e.To really recursive member (compOf holds only recursive comps?)
 					n++
 					cnt++
-					key := fmt.Sprintf("VISITED:%s.%s:entry:%s#%d", namedName(ti.fn.Signature.Recv().Type()), ti.field.Name(), fnKey(f), cnt)
+					key := fmt.Sprintf("VISITED:%s.%s:entry:%s#%d", namedName(ti.fn.Params[0].Type()), ti.field.Name(), fnKey(f), cnt)
 					site := e.Site
 					bad := mustPrecede(f, isReset, func(i ssa.Instruction) bool { return i == ssa.Instruction(site) })
 					if len(bad) == 0 {
